@@ -19,7 +19,9 @@ LEVEL = "exploration"
 DATES = ["2015-01-01", "2017-03-01", "2019-07-01", "2021-01-01", "2022-10-01", "2023-07-01", "2024-01-01", "2005-01-01", "2005-07-01", "2010-01-01", "1998-01-01", "2002-07-01"]
 TARGET_SETS = ["default", ["eink_st_y_sn", "soli_st_y_sn"], ["kindergeld_m", "kinderzuschl_m_bg", "wohngeld_m_wthh"],
                ["ges_rente_m", "sozialv_beitr_arbeitnehmer_m"], ["arbeitsl_geld_2_m_bg", "bg_id", "fg_id"],
-               ["elterngeld_m", "unterhaltsvors_m", "ges_pflegev_beitr_arbeitnehmer_m"]]
+               ["elterngeld_m", "unterhaltsvors_m", "ges_pflegev_beitr_arbeitnehmer_m"],
+               ["anz_kinder_hh", "anz_kinder_fg", "anz_kinder_bg", "anz_erwachsene_fg", "anz_erwachsene_hh", "arbeitsl_geld_2_m_bg",
+                "ges_pflegev_anz_kinder_bis_24", "ges_pflegev_beitr_arbeitnehmer_m"]]
 OLD_TARGETS = [["kindergeld_m"], ["eink_st_y_sn"], "feasible", "feasible"]
 GROUPS = ["eink_st", "sozialv_beitr", "kindergeld", "arbeitsl_geld_2", "wohngeld", "ges_rente"]
 REFORM_FUNCS = ["kindergeld_m", "ges_pflegev_beitr_satz_arbeitnehmer", "eink_st_y_sn", "sozialv_beitr_arbeitnehmer_m"]
@@ -75,6 +77,8 @@ def gen_history(rng, n_ops):
                         targets=tg, rounding=bool(rng.random() < 0.7), debug=bool(rng.random() < 0.2),
                         form=str(rng.choice(["df", "dict", "dict_convert", "df_convert"])),
                         edited_groups=list(edits[s]), edited_functions=list(fedits[s]))
+            if not old and rng.random() < 0.25:  # user-provided aggregation specs (re-defining built-in columns or adding new ones)
+                call["specs"] = ["override_group", "override_pid", "new"][int(rng.integers(0, 3))]
             op = dict(op="sim", slot=s, call=call)
             hist.append(op)
             sims.append(op)
@@ -208,6 +212,9 @@ def run_item(item):
         if h["op"] != "sim":
             continue
         res["sims"] += 1
+        if h["call"].get("specs"):
+            k_ = "sim_with_aggregation_specs:" + h["call"]["specs"]
+            res["op_kinds"][k_] = res["op_kinds"].get(k_, 0) + 1
         for f in r["findings"]:
             viol(f.split(":")[0] + ":" + f.split(":")[1].split("(")[0].strip() if ":" in f else f,
                  f"op {r['i']}: caller-owned argument changed by the call: {f} (data form {h['call']['form']})")
